@@ -6,6 +6,7 @@ import PandoraModel.Properties.C12KernelsRiskSampled
 import PandoraModel.Properties.C12Names
 import PandoraModel.Properties.C12KernelsRegul
 import PandoraModel.Properties.C12KernelsGraphReg
+import PandoraModel.Properties.C12KernelsBorders
 open Pandora.C12
 -- tie to the source
 #print axioms stems_from_source
@@ -102,3 +103,10 @@ open Pandora.C12
 #print axioms Pandora.C12KernelsRegul.graphRegularization_generated_eq
 #print axioms Pandora.C12KernelsRegul.intervalRegularization_all_generated
 #print axioms Pandora.C12KernelsRegul.quantile1_widens_generated
+-- the segment extraction and the whole interval_regularization regenerated = the hand model (Properties/C12KernelsBorders.lean)
+#print axioms Pandora.C12KernelsRegul.whereEq_left
+#print axioms Pandora.C12KernelsRegul.whereEq_right
+#print axioms Pandora.C12KernelsRegul.regulBorders_generated_eq
+#print axioms Pandora.C12KernelsRegul.length_borders
+#print axioms Pandora.C12KernelsRegul.intervalRegularization_generated_eq
+#print axioms Pandora.C12KernelsRegul.quantile1_widens_whole_generated
